@@ -414,4 +414,7 @@ def run(cx, tier='quick'):
     rep.not_decided += ['behaviour of user-supplied comparison methods']
     from .binders import check_binder_injectivity
     check_binder_injectivity(cx, rep, ['::partial_eq::'])
+    from .c13 import include_own_parsers as _iop
+    from ..facts import Facts as _Fp
+    _iop(cx, _Fp(cx), rep, ['::partial_eq::', '::eq::'])
     return rep
